@@ -9,6 +9,19 @@ TRUSTED_BASE = [
 ]
 
 CHECKS = {
+    "C09": {
+        "modules": ["PGV.Props.C09"],
+        "audits": ["PGV/Audit/C09.lean"],
+        "streams": ["lru-exh", "lru"],
+        "thorough_seeds": 4,
+        "exhaustive_note": "lru-exh enumerates every op sequence of the stated length over the small alphabet for cap 0..4",
+        "assumptions": [
+            "keys are hashable values on which == is reflexive (modelled as Nat); cap >= 0",
+            "Go map iteration order is never observed by the cache (index lookups and a scan for a unique element only)",
+            "container/list PushFront/MoveToFront/Remove/Back modelled as list operations on (element id, value) pairs",
+        ],
+        "explanation": "C09_inv / C09_refines are by induction over ALL operation sequences and capacities; the streams compare every step's result, the callback log and Dump of the real LRUCache with the model and the spec",
+    },
     "C14": {
         "modules": ["PGV.Props.C14"],
         "audits": ["PGV/Audit/C14.lean"],
@@ -25,6 +38,16 @@ CHECKS = {
 NOT_YET = {}
 
 MANIFEST_TEXT = {
+    "C09": {
+        "technique": "Lean 4 invariant + refinement theorems (induction over op sequences) + differential correspondence incl. bounded-exhaustive enumeration",
+        "text": "Theorems for EVERY operation sequence and EVERY capacity: the two-structure representation invariant holds in all reachable states (C09_inv), "
+                "the cache model produces exactly the outputs of the abstract bounded LRU list (Load results, Len, callback log, Dump) and commutes with the "
+                "abstraction (C09_refines); corollaries: Len is never the sentinel, capacity bound and key uniqueness, latest value, hit iff live, eviction of "
+                "the least recently used entry, callback accounting. Tie: streams lru-exh (every sequence of length 4 quick / 6 thorough over 13 ops, cap 0..4) "
+                "and lru (random long histories crossing the map-rebuild threshold, cap up to 512) compare the real LRUCache step by step.",
+        "note": "Trusted: Lean kernel; Spec.LRU (30 lines) as the meaning of 'bounded LRU map'; container/list and Go map transcribed as lists; sync.RWMutex irrelevant "
+                "sequentially (C10 covers concurrency); differential testing bounds the model=code tie.",
+    },
     "C14": {
         "technique": "Lean 4 theorems (loop invariant, structural induction) + differential correspondence",
         "text": "Theorems for ALL byte strings / rule lists: the splitter returns the quote-aware pieces up to one trailing empty piece "
